@@ -12,4 +12,159 @@ theorem pkiWrap_iter_refused (C : Cipher) (kind : PkiKind) (payload pwd salt : B
   rw [iterMin_eq, if_pos h]
 example : (9999 : Nat) < 10000 := by decide
 
+/-- order of the checks of Wrap: iteration count, then the payload (key length / share format) -/
+theorem pkiWrap_payload_refused (C : Cipher) (kind : PkiKind) (payload pwd salt : Bytes) (iter : Nat) (h : 10000 ≤ iter)
+    (hp : payloadCheck kind payload ≠ .ok) :
+    pkiWrap C kind payload pwd salt iter = (payloadCheck kind payload, []) := by
+  unfold pkiWrap
+  rw [iterMin_eq, if_neg (by omega)]
+  simp only [hp, ne_eq, not_false_eq_true, if_true]
+example : payloadCheck .privkey (List.replicate 16 1) = .badPrivkey ∧ payloadCheck .share (0 :: List.replicate 16 1) = .badSeckey ∧
+    payloadCheck .share (17 :: List.replicate 16 1) = .badSeckey ∧ payloadCheck .share (16 :: List.replicate 32 1) = .ok := by decide
+
+/-- WHAT OPENS A CONTAINER: Unwrap returns a payload only if belt-KWP accepted the encrypted data under the key
+PBKDF2 derives from the given password and the salt / iteration count FOUND IN THE CONTAINER, i.e. (C01
+`kwpUnwrap_spec`) the last 16 octets recovered by belt-WBL⁻¹ are zero.  A wrong password therefore opens the
+container only if it derives the same key (PBKDF2/HMAC collision — e.g. HMAC's zero padding of short keys) or if
+the 128-bit KWP check collides: the witness is explicit. -/
+theorem pkiUnwrap_ok_kwp (C : Cipher) (hC : CipherOK C) (kind : PkiKind) (epki pwd v : Bytes)
+    (h : pkiUnwrap C kind epki pwd = (.ok, some v)) :
+    ∃ edata salt iter key pki, edataOpen epki = .ok (edata, salt, iter) ∧
+      Bee2V.C01.pbkdf2 C pwd iter salt = (.ok, some key) ∧
+      Bee2V.C01.kwpUnwrap C edata none key = (.ok, some pki) ∧
+      (Bee2V.C01.wblStepDBase C (Bee2V.C01.fmtKey key) edata).1.drop (edata.length - 16) = zeros 16 ∧
+      pkiDec kind pki = .ok (v, pki.length) := by
+  unfold pkiUnwrap at h
+  cases ho : edataOpen epki with
+  | error e => rw [ho] at h; cases h
+  | ok r =>
+    obtain ⟨edata, salt, iter⟩ := r
+    rw [ho] at h; dsimp only at h
+    obtain ⟨e, o, hk⟩ : ∃ e o, Bee2V.C01.pbkdf2 C pwd iter salt = (e, o) := ⟨_, _, rfl⟩
+    rw [hk] at h
+    cases o with
+    | none => cases e <;> cases h
+    | some key =>
+      cases e <;> try (cases h)
+      dsimp only at h
+      obtain ⟨e2, o2, hu⟩ : ∃ e o, Bee2V.C01.kwpUnwrap C edata none key = (e, o) := ⟨_, _, rfl⟩
+      rw [hu] at h
+      cases o2 with
+      | none => cases e2 <;> cases h
+      | some pki =>
+        cases e2 <;> try (cases h)
+        dsimp only at h
+        have hs := Bee2V.C01.kwpUnwrap_spec C hC edata none key
+        rw [hu] at hs
+        have hz : (Bee2V.C01.wblStepDBase C (Bee2V.C01.fmtKey key) edata).1.drop (edata.length - 16) = zeros 16 := by
+          split at hs
+          · cases hs
+          · split at hs
+            · rename_i hz; simpa using hz
+            · cases hs
+        refine ⟨edata, salt, iter, key, pki, rfl, hk, hu, hz, ?_⟩
+        cases hd : pkiDec kind pki with
+        | err => rw [hd] at h; cases h
+        | oob => rw [hd] at h; cases h
+        | ok r =>
+          obtain ⟨v', c⟩ := r
+          rw [hd] at h; dsimp only at h
+          split at h
+          · cases h
+          · rename_i hc
+            split at h
+            · cases h
+            · cases h
+              have : c = pki.length := by simpa using hc
+              rw [this]
+
+/-
+FULL STATEMENT (the two codec hypotheses are NOT proved here — see docs/C17.md "partial"):
+  ∀ kind payload pwd salt iter epki, salt.length = 8 →
+    pkiWrap C kind payload pwd salt iter = (.ok, epki) → pkiUnwrap C kind epki pwd = (.ok, some payload).
+Proved below: the same under the hypotheses that (1) bpkiPrivkeyDec/bpkiShareDec invert bpkiPrivkeyEnc/bpkiShareEnc on
+this payload and (2) bpkiEdataDec inverts bpkiEdataEnc on this (salt, iter) — two DER round trips through the SEQ
+anchors of the C08 container model (checked by the correspondence run and the C08 oracle, not by a theorem).  Everything
+else — PBKDF2 determinism, belt-KWP unwrap∘wrap (C01 `kwpUnwrap_kwpWrap`), the order and the codes of the checks,
+the first-octet rule of shares — is proved.
+-/
+theorem pki_roundtrip_partial (C : Cipher) (hC : CipherOK C) (kind : PkiKind) (payload pwd salt epki : Bytes) (iter : Nat)
+    (hcodec1 : ∀ pki, pkiEnc kind payload = .ok pki → pkiDec kind pki = .ok (payload, pki.length))
+    (hcodec2 : ∀ edata e, Bee2V.C08.bpkiEdataEnc edata salt iter = .ok e → edataOpen e = .ok (edata, salt, iter))
+    (h : pkiWrap C kind payload pwd salt iter = (.ok, epki)) :
+    pkiUnwrap C kind epki pwd = (.ok, some payload) := by
+  unfold pkiWrap at h
+  dsimp only at h
+  by_cases hi : iter < Bee2V.Gen.C17Src.iterMin
+  · rw [if_pos hi] at h; cases h
+  · rw [if_neg hi] at h
+    by_cases hpc : payloadCheck kind payload ≠ .ok
+    · rw [if_pos hpc] at h
+      have := (Prod.mk.inj h).1
+      exact absurd this hpc
+    · rw [if_neg hpc] at h
+      have hpc' : payloadCheck kind payload = .ok := by simpa using hpc
+      cases he : pkiEnc kind payload with
+      | err => rw [he] at h; cases h
+      | oob => rw [he] at h; cases h
+      | ok pki =>
+        rw [he] at h; dsimp only at h
+        unfold epkiSeal at h
+        obtain ⟨e, o, hk⟩ : ∃ e o, Bee2V.C01.pbkdf2 C pwd iter salt = (e, o) := ⟨_, _, rfl⟩
+        rw [hk] at h
+        cases o with
+        | none =>
+          cases e <;> try (cases h)
+          unfold Bee2V.C01.pbkdf2 at hk
+          split at hk <;> cases hk
+        | some key =>
+          cases e <;> try (cases h)
+          dsimp only at h
+          obtain ⟨e2, o2, hw⟩ : ∃ e o, Bee2V.C01.kwpWrap C pki none key = (e, o) := ⟨_, _, rfl⟩
+          rw [hw] at h
+          cases o2 with
+          | none =>
+            cases e2 <;> try (cases h)
+            unfold Bee2V.C01.kwpWrap at hw
+            split at hw <;> cases hw
+          | some edata =>
+            cases e2 <;> try (cases h)
+            dsimp only at h
+            cases hee : Bee2V.C08.bpkiEdataEnc edata salt iter with
+            | err => rw [hee] at h; cases h
+            | oob => rw [hee] at h; cases h
+            | ok e3 =>
+              rw [hee] at h; cases h
+              -- the KWP facts: wrap succeeded, so the key length is admissible and the payload code has ≥ 16 octets
+              have hkw : ¬ (pki.length < 16 ∨ Bee2V.C01.validKeyLen key.length = false) := by
+                intro hb
+                have := (Bee2V.C01.kwpWrap_badInput_iff C pki none key).mpr hb
+                rw [hw] at this; cases this
+              have hk16 : 16 ≤ pki.length := by
+                have := not_or.mp hkw; omega
+              have hkv : Bee2V.C01.validKeyLen key.length = true := by
+                cases hv : Bee2V.C01.validKeyLen key.length
+                · exact absurd (Or.inr hv) hkw
+                · rfl
+              obtain ⟨tok, ht1, _, ht2⟩ := Bee2V.C01.kwpUnwrap_kwpWrap C hC pki none key hk16 hkv (by intro h hh; cases hh)
+              rw [hw] at ht1
+              have htok : tok = edata := by cases ht1; rfl
+              subst htok
+              unfold pkiUnwrap
+              rw [hcodec2 _ _ hee]; dsimp only
+              rw [hk]; dsimp only
+              rw [ht2]; dsimp only
+              rw [hcodec1 pki he]; dsimp only
+              rw [if_neg (by simp)]
+              -- the first-octet rule of shares was already enforced by Wrap
+              have hsh : ¬ (kind = .share ∧ ((payload.headD 0).toNat = 0 ∨ (payload.headD 0).toNat > 16)) := by
+                rintro ⟨hkd, hb⟩
+                subst hkd
+                simp only [payloadCheck] at hpc'
+                by_cases hb' : (payload.length ≠ 17 ∧ payload.length ≠ 25 ∧ payload.length ≠ 33) ∨
+                    (payload.headD 0).toNat = 0 ∨ (payload.headD 0).toNat > 16
+                · rw [if_pos hb'] at hpc'; cases hpc'
+                · exact hb' (Or.inr hb)
+              rw [if_neg hsh]
+
 end Bee2V.C17
